@@ -1,0 +1,34 @@
+//go:build verif
+
+package writer
+
+import (
+	"github.com/basecomplextech/baselibrary/buffer"
+	"github.com/basecomplextech/spec/internal/decode"
+	"github.com/basecomplextech/spec/internal/types"
+)
+
+// Ghost client programs for /verif/govc (build tag verif only; never part of a normal build).
+// They drive the REAL writer through its handle API and read the result back with the real
+// reader; the contract of each program is a property-level lemma proved from the callees'
+// contracts alone.
+
+// ghostMessageOneField: C01 for the call sequence Message / Field(tag).Int32(v) / Build on a new
+// writer: the bytes returned parse as a message whose field tag holds exactly v.
+func ghostMessageOneField(buf buffer.Buffer, tag uint16, v int32) (int32, error) {
+	w := newWriter(buf, false)
+	m := w.Message()
+	if err := m.Field(tag).Int32(v); err != nil {
+		return 0, err
+	}
+	b, err := m.Build()
+	if err != nil {
+		return 0, err
+	}
+	msg, err := types.OpenMessageErr(b)
+	if err != nil {
+		return 0, err
+	}
+	r, _, err := decode.DecodeInt32(msg.FieldRaw(tag))
+	return r, err
+}
